@@ -119,6 +119,10 @@ def judge_measurement(m, conn, N, qubits, which):
         prep.cx(q, q + 1)
     nprep = len(prep.data)
     ql = None if qubits is None else list(qubits)
+    if which.endswith("+objects"):
+        # the documented alternative: Qubit objects of the preparation circuit's register instead of indices
+        which = which[:-len("+objects")]
+        ql = None if qubits is None else [prep.qubits[q] for q in qubits]
     if which == "tomography":
         circuits = impl.tomography.full_state_tomography_circuits(prep, conn, ql)
     else:
@@ -203,6 +207,9 @@ def check(ctx):
                 items.append((m, conn, N, ql, "tomography" if (m <= 4 or not quick) else "stabilizer"))
                 if m <= 4:
                     items.append((m, conn, N, ql, "stabilizer"))
+                if m <= 3 and N == m + 1:
+                    items.append((m, conn, N, ql, "tomography+objects"))
+                    items.append((m, conn, N, ql, "stabilizer+objects"))
     res = core.pmap(_meas_work, core.chunk_list(items, 64))
     for cnt, bad in res:
         ctx.count("measurement_cases", cnt)
